@@ -59,7 +59,9 @@ def value_to_json(value: object) -> object:
         try:
             value.encode("utf-8")
         except UnicodeEncodeError:
-            return {"string": repr(value)}
+            # Use ascii instead of repr, because which characters repr escapes
+            # depends on the unicode version of the Python that is running
+            return {"string": ascii(value)}
         return value
     if value == ...:
         return {"type": "ellipsis"}
